@@ -127,7 +127,7 @@ fn run_chain(menu: &std::sync::Arc<Menu>, chain: &[usize], commit_each: bool) ->
         let want = crate::props::c04::expect_tracked(menu.docs[d].as_object().unwrap(), &[]);
         let got = read_doc(&w.reps[0].m);
         checks += 1;
-        if got.get("ok") != Some(&want) {
+        if !got.get("ok").is_some_and(|g| crate::props::c04::same_doc(&want, g)) {
             return Err(json!({"history": hist, "error": "read differs from submitted array", "read": got, "expected": want}));
         }
         if let Some(arr) = menu.docs[d].get("l♭") {
@@ -143,7 +143,7 @@ fn run_chain(menu: &std::sync::Arc<Menu>, chain: &[usize], commit_each: bool) ->
     let want = crate::props::c04::expect_tracked(menu.docs[*chain.last().unwrap()].as_object().unwrap(), &[]);
     let got = read_doc(&m);
     checks += 1;
-    if got.get("ok") != Some(&want) {
+    if !got.get("ok").is_some_and(|g| crate::props::c04::same_doc(&want, g)) {
         return Err(json!({"history": hist, "error": "read after cold reopen differs", "read": got, "expected": want}));
     }
     // every stored version reconstructs to what was submitted (live replica: warm caches; reopened: cold)
